@@ -170,6 +170,10 @@ def scenarios():
     cl = [("open", 0), ("write", 0, A), ("eof", 0), ("read", 0), ("ping",), ("ping2",)]
     for k in (-1, 3, 4, 5):
         add("cli_close_at%d" % k, [client(cl, closer=k)], complete=False)
+    # a second exchange after the connection has gone quiet (deferred transmission must be
+    # scheduled again: nothing else would send the data before the idle timeout)
+    add("echo_twice", [client(ECHO + [("sleep", 0.5), ("open", 1), ("write", 1, A[::-1]), ("eof", 1),
+                                      ("read", 1)])])
     add("srv_ping", [client(ECHO)], server="echo_ping", server_close_end=True)
     # two concurrent clients at distinct addresses
     add("two", [client(ECHO), client(ECHO_B)])
@@ -594,11 +598,11 @@ class World:
                         "datagram addressed to connection ID seq=%d, which live server connection %s "
                         "has sent to the peer and not seen retired, %s%s"
                         % (seqs[0], p.v_name,
-                           "" if seqs[0] == 0 or dcid in p.v_issued_seen else
-                           " (its ConnectionIdIssued event is still queued: NEW_CONNECTION_ID was "
-                           "written by transmit() after _process_events())",
                            "has no routing entry (datagram dropped)" if got is None
                            else "is routed to another protocol",
+                           "" if seqs[0] == 0 or dcid in p.v_issued_seen else
+                           " - its ConnectionIdIssued event is still queued: NEW_CONNECTION_ID was "
+                           "written by transmit() after _process_events()",
                            ),
                         api="QuicServer.datagram_received",
                         input="cid_seq:%s" % ("0" if seqs[0] == 0 else "n"),
@@ -638,7 +642,7 @@ class World:
         # (2) waiters
         for who, op, res, started in self.ledger:
             if res == "pending":
-                if reason == "iterations":
+                if reason in ("iterations", "spin"):
                     continue
                 protos = [c.proto for c in self.clients if c.name == who] + \
                          [p for p in self.sprotos if p.v_name == who]
@@ -680,13 +684,13 @@ class World:
                 self.violate("stream.bytes", "%s stream %d read %d bytes nobody wrote"
                              % (ep, sid, len(r["r"])), direction="server->client")
         for (ep, sid), r in self.streams.items():
-            if r["reading"] and not r["r_eof"] and reason != "iterations":
+            if r["reading"] and not r["r_eof"] and reason not in ("iterations", "spin"):
                 self.violate(
                     "stream.no_eof",
                     "%s: reader of stream %d never reached EOF (%s)" % (ep, sid, reason),
                     side="client" if ep.startswith("C") else "server",
                 )
-        if sc["complete"] and reason != "iterations":
+        if sc["complete"] and reason not in ("iterations", "spin"):
             for c in self.clients:
                 if not c.completed:
                     self.violate(
@@ -695,6 +699,15 @@ class World:
                         "the idle timeout is 60 s and the network is fair after the deviations"
                         % (c.name, c.at, c.spec["ops"][c.at][0] if c.at is not None and c.at >= 0 else "connect"),
                         op=c.spec["ops"][c.at][0] if c.at is not None and c.at >= 0 else "connect",
+                    )
+            for (ep, sid), r in self.streams.items():
+                if r["reading"] and r["r_eof"] and not r["r_live_eof"]:
+                    self.violate(
+                        "liveness.incomplete",
+                        "%s: stream %d was cut short by connection termination after %d bytes although "
+                        "nobody closed, the idle timeout is 60 s and the network is fair after the deviations"
+                        % (ep, sid, len(r["r"])),
+                        op="read_truncated",
                     )
         # (4) exception handler, read after gc.collect()
         log = self.loop.finish()
@@ -749,14 +762,28 @@ _GC = [False]
 logging.getLogger("quic").setLevel(logging.CRITICAL)  # connection errors are observed as events
 
 
+def warm():
+    """One-time, per-process initialisation; run() calls it in the parent BEFORE the pools
+    are forked: certificates, the retry RSA key, lazily imported crypto back-ends, then
+    gc.freeze() so that the workers do not copy the whole heap on their first collection."""
+    if _GC[0]:
+        return
+    _GC[0] = True
+    _server_material()
+    _install_rsa_seam()
+    import aioquic.quic.retry as r
+
+    r.rsa.generate_private_key(public_exponent=65537, key_size=2048)
+    for name in ("echo1", "echo1_retry"):
+        execute(name, explore.Chooser([]))
+    gc.collect()
+    gc.freeze()
+    gc.disable()
+
+
 def execute(sc_name, chooser, trace=False):
     if not _GC[0]:
-        _server_material()
-        _install_rsa_seam()
-        gc.collect()
-        gc.freeze()
-        gc.disable()
-        _GC[0] = True
+        warm()
     w = World(SCENARIOS[sc_name], chooser, trace=trace)
     try:
         obs = w.run()
@@ -769,6 +796,7 @@ def execute(sc_name, chooser, trace=False):
         "hs": w.net.hs,
         "devs": list(w.net.deviations),
         "iters": w.loop.iterations,
+        "stutters": w.loop.stutters,
         "vtime": round(w.loop.elapsed(), 6),
         "route_checks": w.n_route_checks,
         "token_checks": w.n_token_checks,
@@ -813,6 +841,8 @@ class Shard:
         self.route_checks = 0
         self.token_checks = 0
         self.caps = 0
+        self.capped = []
+        self.stutter_execs = 0
         self.max_iters = 0
         self.devkinds = {}
         self.last = None
@@ -852,8 +882,12 @@ class Shard:
         self.route_checks += r["route_checks"]
         self.token_checks += r["token_checks"]
         self.max_iters = max(self.max_iters, r["iters"])
-        if r["reason"] == "iterations":
+        if r["stutters"]:
+            self.stutter_execs += 1
+        if r["reason"] in ("iterations", "spin"):
             self.caps += 1
+            if len(self.capped) < 3:
+                self.capped.append(trim(ex.choices))
         k = core.stable_hash(r["obs"])
         if k not in self.outcomes:
             self.outcomes[k] = trim(ex.choices)
@@ -881,6 +915,8 @@ class Shard:
             "route_checks": self.route_checks,
             "token_checks": self.token_checks,
             "caps": self.caps,
+            "capped": self.capped,
+            "stutter_execs": self.stutter_execs,
             "max_iters": self.max_iters,
             "devkinds": self.devkinds,
         }
@@ -945,7 +981,7 @@ CORE_KEYS = ("monitor", "api", "exc", "where", "entry", "kind", "state", "direct
 
 
 CORE_QUICK_D2 = ("echo1", "cid_timed", "echo1_retry", "cli_close_at4", "srv_close_after_write")
-CORE_THOROUGH_D3 = ("echo1", "cid_timed", "cli_close_at4", "nowait", "echo1_retry", "cid")
+CORE_THOROUGH_D3 = ("echo1", "cid_timed", "cli_close_at4", "nowait", "cid")
 
 
 def plan(tier, seed, only=None):
@@ -969,10 +1005,11 @@ def plan(tier, seed, only=None):
 
 def run(ctx):
     t0 = time.time()
+    warm()
     bounds = plan(ctx.tier, ctx.seed, ctx.only_parts)
     names = list(bounds)
     bound = max(bounds.values()) if bounds else 0
-    bases = core.pmap(baseline_job, names)
+    bases = [baseline_job(n) for n in names]  # 2 x ~5 ms each: cheaper than a pool
     base = dict(zip(names, bases))
     items = []
     for n in names:
@@ -986,14 +1023,14 @@ def run(ctx):
     # big subtrees first (higher bound, earlier first deviation), single executions in chunks
     big = sorted((it for it in items if it[1] > 1), key=lambda it: (-it[1], len(it[2])))
     small = [it for it in items if it[1] <= 1]
-    chunks = [[it] for it in big] + [small[i: i + 6] for i in range(0, len(small), 6)]
+    chunks = [[it] for it in big] + [small[i: i + 10] for i in range(0, len(small), 10)]
     res = [s for part in core.pmap(shard_jobs, chunks) for s in part]
     per = {}
     for n in names:
         b = base[n]
         per[n] = {"count": 1, "points": len(b["choices"]), "outcomes": {core.stable_hash(b["obs"]): []},
                   "viol": {}, "route_checks": b["route_checks"], "token_checks": b["token_checks"],
-                  "caps": 1 if b["reason"] == "iterations" else 0, "devkinds": {"none": 1},
+                  "caps": 1 if b["reason"] in ("iterations", "spin") else 0, "devkinds": {"none": 1},
                   "default_points": len(b["choices"]), "default_iters": b["iters"],
                   "default_datagrams": b["sent"], "max_iters": b["iters"]}
         for sig, what in b["viol"]:
@@ -1005,6 +1042,8 @@ def run(ctx):
         p["route_checks"] += s["route_checks"]
         p["token_checks"] += s["token_checks"]
         p["caps"] += s["caps"]
+        p.setdefault("capped", []).extend(s.get("capped", []))
+        p["stutter_execs"] = p.get("stutter_execs", 0) + s["stutter_execs"]
         p["max_iters"] = max(p["max_iters"], s["max_iters"])
         for k, v in s["outcomes"].items():
             p["outcomes"].setdefault(k, v)
@@ -1034,15 +1073,13 @@ def run(ctx):
             routing_checks=p["route_checks"],
             token_checks=p["token_checks"],
             iteration_caps=p["caps"],
+            executions_with_clock_nudges=p.get("stutter_execs", 0),
             deviation_kinds=dict(sorted(p["devkinds"].items())),
             bound=bounds[n],
         )
         if p["caps"]:
-            ctx.cap("%s: %d executions hit the %d-iteration cap" % (n, p["caps"], HORIZON_IT))
-    varied = sum(1 for n in names if len(per[n]["outcomes"]) >= 2)
-    if total > 50 and (len(all_outcomes) < 3 or (len(names) >= 4 and varied * 2 < len(names))):
-        raise core.HarnessError("vacuous exploration: %d outcomes, %d of %d scenarios with more than one"
-                                % (len(all_outcomes), varied, len(names)))
+            ctx.cap("%s: %d executions hit the %d-iteration cap / spin guard, e.g. choices %r"
+                    % (n, p["caps"], HORIZON_IT, sorted(p.get("capped", []), key=len)[:2]))
     # ---- violations: simplest per structural core signature, replayed twice, minimised
     best = {}
     for n in names:
@@ -1060,6 +1097,12 @@ def run(ctx):
         ctx.violation(sig, "[%s, deviations: %s] %s" % (c["sc"], sig["deviations"], c["what"]),
                       {"scenario": c["sc"], "choices": c["choices"], "bound": bounds[c["sc"]],
                        "obs_hash": c["obs_hash"]})
+    # vacuity guard (only meaningful when nothing was reported)
+    varied = sum(1 for n in names if len(per[n]["outcomes"]) >= 2)
+    if not ctx.violations and total > 50 and (
+            len(all_outcomes) < 3 or (len(names) >= 4 and varied * 3 < len(names))):
+        raise core.HarnessError("vacuous exploration: %d outcomes, %d of %d scenarios with more than one"
+                                % (len(all_outcomes), varied, len(names)))
     for n in names[:3]:
         b = base[n]
         ctx.sample({"scenario": n, "default_run": {"choice_points": len(b["choices"]),
@@ -1082,6 +1125,9 @@ def run(ctx):
         "timers fire exactly at their deadline (loop.time() == when); later firing is not explored",
         "at most one datagram is read per socket per loop iteration (as _SelectorDatagramTransport does)",
         "a datagram that arrives while select() blocks takes 1 ms of virtual time",
+        "after 20 consecutive select(0) calls the virtual clock is nudged by 1,2,4.. ns (a real loop "
+        "iteration takes time; otherwise a deadline equal to now up to float rounding spins forever); "
+        "1 ms of nudging without leaving the zero-timeout run is reported as a spin (cap)",
         "AssertionError 'already awaiting connected' (two concurrent wait_connected()) is an API precondition",
         "wait_connected() first called after the handshake completed resolves at termination (letter of the property)",
     ]
